@@ -256,8 +256,12 @@ def run_tlc(files, module, cfg_text, workers=1, timeout=600, heap="2g", simulate
         if fast_start is None:
             fast_start = workers == 1
         # short single-worker runs: serial GC and C1 only cut the CPU cost of a run from ~7 s to ~2 s
+        # TLC unpacks its standard modules into java.io.tmpdir on every start and leaves them there: keep that inside the
+        # scratch directory of the run, which is removed afterwards
+        jtmp = os.path.join(wd, "jtmp")
+        os.makedirs(jtmp, exist_ok=True)
         cmd = ["java"] + (["-XX:+UseSerialGC", "-XX:TieredStopAtLevel=1"] if fast_start else ["-XX:+UseParallelGC"]) + \
-              ["-Xmx" + heap, "-Xss64m"]
+              ["-Xmx" + heap, "-Xss64m", "-Djava.io.tmpdir=" + jtmp]
         if dfs:
             cmd.append("-Dtlc2.tool.queue.IStateQueue=StateDeque")
         cmd += ["-cp", TLA_CP, "tlc2.TLC", "-workers", str(workers), "-metadir", os.path.join(wd, "meta"),
@@ -329,8 +333,12 @@ def run_apalache(spec_name, text, args, timeout=600):
         with open(os.path.join(wd, spec_name), "w") as f:
             f.write(text)
         try:
+            jtmp = os.path.join(wd, "jtmp")
+            os.makedirs(jtmp, exist_ok=True)
+            env = dict(os.environ)
+            env["TMPDIR"] = jtmp        # the launcher script makes its java.io.tmpdir with mktemp -t (SANY's unpacked modules)
             p = subprocess.run(["apalache-mc", "check"] + list(args) + ["--out-dir=" + os.path.join(wd, "out"), spec_name],
-                               cwd=wd, capture_output=True, text=True, timeout=timeout)
+                               cwd=wd, capture_output=True, text=True, timeout=timeout, env=env)
         except subprocess.TimeoutExpired:
             raise Machinery("apalache timed out on " + spec_name)
         out = p.stdout + p.stderr
